@@ -146,7 +146,7 @@ pub fn gen(ctx: &mut Ctx, o: &EOpts) -> Option<ECase> {
 }
 
 impl VSpec {
-    fn tname(&self) -> String {
+    pub fn tname(&self) -> String {
         match self.vkind {
             VKind::Rename => format!("{}r", self.name),
             VKind::VExpr => format!("{}x", self.name),
@@ -163,7 +163,7 @@ impl VSpec {
             (s, _) => s,
         }
     }
-    fn is_ghost(&self) -> bool {
+    pub fn is_ghost(&self) -> bool {
         matches!(self.vkind, VKind::GhostAction | VKind::GhostNoAction)
     }
     /// counterpart field name (or index) of payload field i
@@ -179,7 +179,7 @@ impl VSpec {
             self.mapped().iter().position(|x| *x == i).unwrap().to_string()
         }
     }
-    fn mapped(&self) -> Vec<usize> {
+    pub fn mapped(&self) -> Vec<usize> {
         (0..self.fields.len()).filter(|i| self.fields[*i] != FKind::GhostDefault).collect()
     }
 }
@@ -340,14 +340,14 @@ impl ECase {
         o
     }
 
-    fn s_value(&self, name: &str, v: &VSpec, vals: &[i64]) -> String {
+    pub fn s_value(&self, name: &str, v: &VSpec, vals: &[i64]) -> String {
         match v.shape {
             Shape::Unit => format!("{}::{}", name, v.name),
             Shape::Tuple => format!("{}::{}({})", name, v.name, vals.iter().map(|x| x.to_string()).collect::<Vec<_>>().join(", ")),
             Shape::Named => format!("{}::{} {{ {} }}", name, v.name, vals.iter().enumerate().map(|(i, x)| format!("{}: {}", FNAMES[i], x)).collect::<Vec<_>>().join(", ")),
         }
     }
-    fn t_value(&self, tn: &str, v: &VSpec, mapped_vals: &[i64], ghost_val: Option<i64>) -> String {
+    pub fn t_value(&self, tn: &str, v: &VSpec, mapped_vals: &[i64], ghost_val: Option<i64>) -> String {
         let mut fields: Vec<(String, i64)> = v.mapped().iter().enumerate().map(|(j, i)| (v.tfield(*i), mapped_vals[j])).collect();
         if v.vkind == VKind::VGhosts {
             fields.push((if v.tshape() == Shape::Named { "g".into() } else { fields.len().to_string() }, ghost_val.unwrap_or(0)));
